@@ -5,13 +5,22 @@
   with `table_`, in which case they are the tables generated from the Rust std that is linked.
 
   Property theorems
-    white space : `isWs_table`, `collapseWs_ws`, `collapseWs_nonws`, `norm_ws_invariant`,
-                  `wsNorm_lead`, `wsNorm_trail`, `wsNorm_run`, `wsNorm_idem`
+    white space : `isWs_table`, `collapseWs_ws`, `collapseWs_nonws`, `wsNorm_lead`, `wsNorm_trail`,
+                  `wsNorm_run`, `norm_ws_invariant`, `wsNorm_eq_iff` (exactness), `wsNorm_idem`
     case        : `norm_flatMap`, `norm_case_invariant_lower`, `norm_case_invariant_upper`,
                   `norm_case_invariant_mixed`, `normalize_idem`, `sigma_irrelevant`, `norm_sigma`
-    tables      : `table_closure_lower`, `table_closure_upper`, `table_compat_lower`,
-                  `table_compat_upper`, `table_closure`, `table_sigma`, and the `table_*` corollaries
-    map         : `first_wins_raw`, `first_wins`, `resolves_iff`, `resolve_select`, `defs_no_output`
+                  — all GIVEN the closure conditions `Closure L U`
+    tables      : `table_compat_lower`, `table_compat_upper`, `table_closure_lower`,
+                  `table_closure_upper`, `table_closure` (the conditions HOLD for the linked std, checked
+                  row by row by the kernel), `table_sigma`, `table_sigma_irrelevant`, `table_norm_sigma`,
+                  `table_norm_case_invariant`, `table_normalize_idem`
+    map         : `first_wins_raw`, `first_wins`, `resolves_iff`, `later_defs_irrelevant`,
+                  `empty_label_rejected`, `selectLabel_spec`, `resolve_forms`,
+                  `table_first_wins`, `table_resolves_iff`, `table_resolves_variant`
+
+  Not in this file (rule level, see DESIGN.md C13): that `ReferenceScanner` pushes no node and writes
+  the ROOT map from inside block quotes / list items, and that the inline pass runs after the block
+  pass (`inline_after_block`).  The `refs use` stream exercises both through the real parser.
 -/
 import MdIt.Model.Refs
 import MdIt.Gen.Unicode
@@ -219,6 +228,79 @@ example : WsEquiv [32, 32, 102, 111, 111, 32, 9, 10, 32, 98, 97, 114, 160]
   .trans (.lead [32, 32] _ (by decide))
     (.trans (.trail [102, 111, 111, 32, 9, 10, 32, 98, 97, 114] [160] (by decide))
       (.run [102, 111, 111] [32, 9, 10, 32] [12288] [98, 97, 114] (by decide) (by decide) (by decide) (by decide)))
+
+/-! ### completeness: `WsEquiv` is exactly "same white-space normal form" -/
+
+theorem allWs_takeWhile (s : List Nat) : allWs (s.takeWhile isWs) = true := by
+  induction s with
+  | nil => rfl
+  | cons c r ih =>
+    by_cases hc : isWs c = true
+    · simp only [List.takeWhile, hc]; simp only [allWs, List.all_cons, hc, Bool.true_and]; exact ih
+    · simp only [Bool.not_eq_true] at hc
+      simp [List.takeWhile, hc, allWs]
+
+theorem WsEquiv_trimWs (s : List Nat) : WsEquiv s (trimWs s) := by
+  have h1 : WsEquiv s (trimStart s) := by
+    have := WsEquiv.lead (s.takeWhile isWs) (s.dropWhile isWs) (allWs_takeWhile s)
+    rwa [List.takeWhile_append_dropWhile] at this
+  have h2 : ∀ t : List Nat, WsEquiv t (trimEnd t) := by
+    intro t
+    have := WsEquiv.trail (trimEnd t) (t.reverse.takeWhile isWs).reverse
+      (by rw [allWs_reverse]; exact allWs_takeWhile _)
+    have e : trimEnd t ++ (t.reverse.takeWhile isWs).reverse = t := by
+      unfold trimEnd
+      rw [← List.reverse_append, List.takeWhile_append_dropWhile, List.reverse_reverse]
+    rwa [e] at this
+  exact h1.trans (h2 _)
+
+theorem WsEquiv_collapseWs (a x : List Nat) : WsEquiv (a ++ x) (a ++ collapseWs x) := by
+  induction x generalizing a with
+  | nil => exact .refl _
+  | cons c r ih =>
+    by_cases hc : isWs c = true
+    · cases r with
+      | nil =>
+        simp only [collapseWs, hc, startsWs, if_true]
+        have := WsEquiv.run a [c] [32] [] (by simp [allWs, hc]) (by simp) (by decide) (by simp)
+        simpa using this
+      | cons d r' =>
+        by_cases hd : isWs d = true
+        · have e : collapseWs (c :: d :: r') = collapseWs (d :: r') := by
+            rw [collapseWs]; simp [hc, startsWs, hd]
+          rw [e]
+          have := WsEquiv.run a [c, d] [d] r' (by simp [allWs, hc, hd]) (by simp)
+            (by simp [allWs, hd]) (by simp)
+          exact (by simpa using this : WsEquiv (a ++ c :: d :: r') (a ++ d :: r')).trans (ih a)
+        · simp only [Bool.not_eq_true] at hd
+          have e : collapseWs (c :: d :: r') = 32 :: collapseWs (d :: r') := by
+            rw [collapseWs]; simp [hc, startsWs, hd]
+          rw [e]
+          have h1 := WsEquiv.run a [c] [32] (d :: r') (by simp [allWs, hc]) (by simp) (by decide)
+            (by simp)
+          have h2 := ih (a ++ [32])
+          simp only [List.append_assoc, List.singleton_append] at h1 h2
+          exact h1.trans h2
+    · simp only [Bool.not_eq_true] at hc
+      rw [collapseWs_nonws c r hc]
+      have := ih (a ++ [c])
+      simpa using this
+
+/-- every label is white-space-equivalent to its white-space normal form -/
+theorem WsEquiv_wsNorm (s : List Nat) : WsEquiv s (wsNorm s) := by
+  have := WsEquiv_collapseWs [] (trimWs s)
+  simp only [List.nil_append] at this
+  exact (WsEquiv_trimWs s).trans this
+
+/-- **C13 (white space, exact).** Two labels have the same white-space normal form exactly when they
+differ only by the white-space edits of `WsEquiv`. -/
+theorem wsNorm_eq_iff (a b : List Nat) : wsNorm a = wsNorm b ↔ WsEquiv a b := by
+  constructor
+  · intro h
+    have h1 := WsEquiv_wsNorm a
+    rw [h] at h1
+    exact h1.trans (WsEquiv_wsNorm b).symm
+  · exact wsNorm_of_WsEquiv
 
 /-! ### the white-space normal form is stable (needed because definitions are normalised twice) -/
 
